@@ -107,9 +107,10 @@ class FakeGpsd(threading.Thread):
     VERSION / ?WATCH / DEVICES / WATCH handshake, then the TPV reports given to report()."""
     _n = 0
 
-    def __init__(self):
+    def __init__(self, proto_major=3):
         super().__init__(daemon=True)
         import os
+        self.proto_major = proto_major  # a version the client's handshake refuses: anything but 3
         FakeGpsd._n += 1
         self.srv = socket.socket()
         self.srv.setsockopt(socket.SOL_SOCKET, socket.SO_REUSEADDR, 1)
@@ -132,7 +133,10 @@ class FakeGpsd(threading.Thread):
     def run(self):
         try:
             self.conn, _ = self.srv.accept()
-            self._send({"class": "VERSION", "release": "3.22", "rev": "3.22", "proto_major": 3, "proto_minor": 14})
+            self._send({"class": "VERSION", "release": "3.22", "rev": "3.22", "proto_major": self.proto_major, "proto_minor": 14})
+            if self.proto_major != 3:
+                self.ready.set()
+                return
             buf = b""
             self.conn.settimeout(8.0)
             while b";" not in buf:  # ?WATCH={"enable":true,"json":true};
